@@ -22,6 +22,8 @@ def run(model, rep, tier):
     # the positional MODULE [TEST] filters reach the pattern lists and restrict them (shared with C03.R10)
     from . import c03 as _c03
     _c03.r10_positional_filters(ctx, rep, R='C14.R3')
+    from . import robust
+    robust.asserts_have_no_effects(ctx, rep, 'C14.R20', 'C14')
     rep.units['cfg'] = ctx.cfg_stats
 
 
@@ -522,6 +524,43 @@ def symlinked_directories_followed(ctx, rep, R):
             for d_, k_ in g.succ[s_]:
                 if d_ not in inside and k_ != 'exc' and not (s_ == h.id and k_ == 'false'):
                     extra.append(('the loop over the sub-directories is left by %s' % norm(g.node(s_).ast)[:40], True))
+    # ... and the callers prune the yielded list IN PLACE (like os.walk's topdown contract): the
+    # directories looked at for links after the yield are the yielded list object as the caller
+    # left it -- not a snapshot taken before the yield
+    from .common import reaching_defs, node_of
+    ys = [y for y in ast.walk(fw.node) if isinstance(y, ast.Yield) and isinstance(y.value, ast.Tuple)
+          and len(y.value.elts) == 3 and isinstance(y.value.elts[1], ast.Name)]
+    stale = []
+    if ys and rec:
+        y = ys[0]
+        D = y.value.elts[1].id
+        yn = node_of(g, y)
+        dom = g.dominators()
+        heads = [n for n in g.nodes if n.kind == 'for' and any(c in list(ast.walk(n.stmt)) for c in rec)]
+        params_ = {a.arg for a in fw.node.args.args}
+        for h in heads:
+            names = {x.id for x in ast.walk(h.stmt.iter) if isinstance(x, ast.Name)} - params_
+            comp_targets = {t.id for c_ in ast.walk(h.stmt.iter) if isinstance(c_, ast.comprehension)
+                            for t in ast.walk(c_.target) if isinstance(t, ast.Name)}
+            for nm in sorted(names - comp_targets):
+                defs = reaching_defs(g, h.id, nm)
+                if not defs:
+                    continue        # module / builtin name
+                if nm == D:
+                    ydefs = reaching_defs(g, yn, nm) if yn is not None else []
+                    if {id(d) for d in defs} == {id(d) for d in ydefs}:
+                        continue
+                # a value derived from the directories must be derived AFTER the yield
+                for d in defs:
+                    dn = node_of(g, d) if not isinstance(d, (ast.For, ast.With)) else None
+                    derived = D in {x.id for x in ast.walk(d) if isinstance(x, ast.Name)} or nm == D
+                    if not derived:
+                        continue
+                    if dn is None or yn is None or yn not in dom.get(dn, ()):
+                        stale.append('%s = %s' % (nm, norm(d)[:50]))
+        if stale:
+            extra.append(('the sub-directories examined after the yield come from %s, computed before the '
+                          'caller pruned the yielded list' % stale, True))
     rep.check(ok and not extra, R, 'walk_with_symlinks: every symlinked sub-directory is walked (only the islink test guards the recursion)',
               'a symlinked directory is followed only under %s: directories reached through other links '
               'are silently not searched' % extra, key='walk:symlinks', func=fw.qualname,
